@@ -182,6 +182,8 @@ func isFreshAccInit(t *Term) bool {
 
 func runC14(c *Ctx) {
 	R := c.R
+	R.Rule("ctor", "the set constructors Except builds its exclusion set with add every element of their argument to a fresh set (C03's rows, re-run here)", 6)
+	c03Ctors(c)
 	R.Rule("alloc-nonneg", "no make in the helpers is given a length or capacity that subtracts without the path having excluded a negative result", 8)
 	R.Rule("inputs-readonly", "no helper writes through, deletes from or passes to a writer any slice/map parameter", 30)
 	R.Rule("result-fresh", "promised-new results come from make/append-from-fresh on every path; Trim* return a re-slice of the argument", 14)
